@@ -94,6 +94,8 @@ func runProperty(id, repo, verif string, thorough bool, only string, dump bool) 
 	}
 	rep.reg = reg
 	rep.loadS = time.Since(t0).Seconds()
+	loadLock(verif)
+	defer saveLock(verif)
 	axioms, err := reg.axiomTerms()
 	if err != nil {
 		rep.engineFailure("contract-detached:spec: " + err.Error())
